@@ -141,12 +141,59 @@ def deliver(tokenizer, source, delivery, on_token=None):
     return out
 
 
+PRIOR_USES = ("complete-list", "complete-generator", "partial-suspended", "partial-closed", "never-started")
+
+
+def parse_delivery(delivery):
+    """'generator|prior=AAaA|use=partial-closed|j=1' -> ('generator', prior validity tuple or None, use, j)"""
+    parts = delivery.split("|")
+    mode, prior, use, j = parts[0], None, None, 0
+    for p in parts[1:]:
+        k, _, val = p.partition("=")
+        if k == "prior":
+            prior = tuple(1 if c == "A" else 0 for c in val)
+        elif k == "use":
+            use = val
+        elif k == "j":
+            j = int(val)
+    return mode, prior, use, j
+
+
+def earlier_use(tk, v1, kind, use, j):
+    """Use the tokenizer object on another stream first (C20: results must not depend on it)."""
+    frames, _ = FRAME_KINDS[kind](v1)
+    src = CountingSource(frames)
+    if use == "complete-list":
+        tk.tokenize(src)
+        return None
+    if use == "complete-generator":
+        for _ in tk.tokenize(src, generator=True):
+            pass
+        return None
+    g = tk.tokenize(src, generator=True)
+    if use == "never-started":
+        return g
+    for _ in range(j):
+        try:
+            next(g)
+        except StopIteration:
+            break
+    if use == "partial-closed":
+        g.close()
+        return None
+    return g  # partial-suspended: kept alive, never resumed
+
+
 def run(v, params, kind="tuple", delivery="list", on_token=None):
-    """-> (frames, tokens, source).  Exceptions propagate to the caller."""
+    """-> (frames, tokens, source).  Exceptions propagate to the caller.
+    `delivery` may carry an earlier use of the same tokenizer object (see parse_delivery)."""
+    mode, prior, use, j = parse_delivery(delivery)
     frames, validator = FRAME_KINDS[kind](v)
     src = CountingSource(frames)
     tk = make_tokenizer(validator, params)
-    tokens = deliver(tk, src, delivery, on_token)
+    keep = earlier_use(tk, prior, kind, use, j) if prior is not None else None
+    tokens = deliver(tk, src, mode, on_token)
+    del keep
     return frames, tokens, src
 
 
